@@ -8,6 +8,7 @@ type isStandardClass interface {
 	slip.Class
 
 	mergeSupers() bool
+	namesSuper(name string) bool
 	slotDefMap() map[string]*SlotDef
 	initArgDef(name string) *SlotDef
 	initFormMap() map[string]*SlotDef
